@@ -654,3 +654,43 @@ func (s *WSim) DirectedDropped() {
 		s.OpCheckMelt(rec)
 	}
 }
+
+// OpConcurrentMints: two paid mint quotes of one wallet are minted at the same moment (two callers of one
+// wallet object, as a GUI with a background task would be). Beyond histories in the strict sense: the
+// wallet serialises its operations itself, so both must succeed and must not draw on the same counters.
+func (s *WSim) OpConcurrentMints(wn *WalletNode, url string) error {
+	var quotes []string
+	for _, amt := range []uint64{33, 35} {
+		q, hash, err := wn.RequestMint(amt, url)
+		if err != nil {
+			s.logf("%s concurrent-mints: quote refused: %v", wn.Name, err)
+			s.done("concurrent-mints", wn, err)
+			return err
+		}
+		s.W.LN.PayInvoice(hash)
+		quotes = append(quotes, q)
+	}
+	errs := make([]error, len(quotes))
+	start := make(chan struct{})
+	done := make(chan int, len(quotes))
+	for i := range quotes {
+		go func(i int) {
+			<-start
+			_, errs[i] = wn.MintTokens(quotes[i])
+			done <- i
+		}(i)
+	}
+	close(start)
+	for range quotes {
+		<-done
+	}
+	var err error
+	for _, e := range errs {
+		if e != nil {
+			err = e
+		}
+	}
+	s.logf("%s mints two paid quotes at the same moment -> %s / %s", wn.Name, errS(errs[0]), errS(errs[1]))
+	s.done("concurrent-mints", wn, err)
+	return err
+}
